@@ -1,6 +1,6 @@
 (** Non-vacuity for C12: readers satisfying the hypotheses, and concrete runs of the model. *)
 From Coq Require Import NArith List Lia.
-From FF Require Import Lib.Word Gen.Consts_device_acpi_aml Aml.Stream Aml.Lex Aml.LexProofs Aml.Tree Aml.TreeSpec Aml.Parser Aml.ParserProofs Aml.ParserProofsTop Aml.ParserTotalBase Aml.ParserTotalFirst Aml.ParserTotalConn Aml.ParserTotalTop Aml.ParserTotalNonNamed Aml.ParserTotalCalls Aml.ParserTotalReloc Aml.ParserTotalMerge.
+From FF Require Import Lib.Word Gen.Consts_device_acpi_aml Aml.Stream Aml.Lex Aml.LexProofs Aml.Tree Aml.TreeSpec Aml.Parser Aml.ParserProofs Aml.ParserProofsTop Aml.ParserTotalBase Aml.ParserTotalFirst Aml.ParserTotalConn Aml.ParserTotalTop Aml.ParserTotalNonNamed Aml.ParserTotalCalls Aml.ParserTotalReloc Aml.ParserTotalMerge Aml.ParserTotalResolve.
 Import ListNotations.
 Local Open Scope N_scope.
 
@@ -181,6 +181,7 @@ Example C12_merge_nonvacuous :
     (exists o, TreeSpec.get (p_tree s) 0 = Some o /\ o_opcode o = aml_pOpIntScopeBlock) /\
     (forall d dobj, TreeSpec.get (p_tree s) d = Some dobj -> o_opcode dobj = aml_pOpScope -> o_tableHandle dobj = p_handle s ->
        name_lead (o_name dobj) = false /\
+       (forall op fl af, opInfo (o_infoIndex dobj) = Some (op, fl, af) -> hasFlag fl aml_pOpFlagNamed = false) /\
        exists n c no co tbl sl,
          kids g d = [n; c] /\ kids g n = [] /\
          TreeSpec.get (p_tree s) n = Some no /\ o_opcode no <> aml_pOpIntScopeBlock /\ o_opcode no <> aml_pOpScope /\
@@ -197,3 +198,9 @@ Example C12_merge_runs :
   fst (fst (load [[0x10; 0x0d; 0x5c; 0x5f; 0x53; 0x42; 0x5f; 0x08; 0x41; 0x42; 0x43; 0x44; 0x0a; 0x05;
                    0x10; 0x12; 0x5f; 0x53; 0x42; 0x5f; 0x10; 0x0c; 0x5e; 0x5f; 0x54; 0x5a; 0x5f; 0x08; 0x58; 0x58; 0x58; 0x58; 0x00]])) = 0.
 Proof. vm_compute. reflexivity. Qed.
+
+(** on the state of C12_merge_nonvacuous (which satisfies the hypotheses of C12_parse_total_partial_nopanic_resolve_loop too)
+    the whole loop runs: the directive is merged, nothing is left to relocate *)
+Example C12_resolve_loop_runs :
+  match resolve_loop 5 10 mex_state with Ok (r, s') => r = ROk /\ p_mergedScopes s' = 1 | _ => False end.
+Proof. vm_compute. split; reflexivity. Qed.
